@@ -881,3 +881,246 @@ Proof.
   rewrite added_loop_upfrom by (rewrite ?X; pow_lits; lia).
   rewrite right_spine_upfrom. rewrite X. reflexivity.
 Qed.
+
+(* ================================================================== every tree of the forest inside its slot *)
+Lemma forest_from_In k : forall n o l t, 0 <= n < tleafs k -> In t (forest_from k n o l) ->
+  o <= pt_offset t /\ pt_root t <= o + ncount n /\
+  o + ncount n < pt_root t + tsize (pt_height t) + 1 /\
+  pt_root t + tsize (pt_height t) + 1 <= o + tsize k /\
+  (forall p r, pt_offset t < p <= pt_root t ->
+     desc k o l p r = desc (pt_height t) (pt_offset t) (pt_first_leaf t) p 0).
+Proof.
+  induction k as [|k IH]; intros n o l t Hn HI; [destruct HI|].
+  cbn [forest_from] in HI. rewrite tleafs_S in Hn. pose proof (tsize_pos k) as Hp.
+  pose proof (ncount_lt_tsize (S k) n ltac:(rewrite tleafs_S; lia)) as Hlt. rewrite tsize_S in *.
+  destruct (Z.leb_spec (tleafs k) n) as [Hb|Hb].
+  - pose proof (ncount_split k n ltac:(lia)) as Hs. pose proof (ncount_nonneg (n - tleafs k) ltac:(lia)) as Hnn.
+    destruct HI as [<-|HI].
+    + unfold pt_root. cbn [pt_offset pt_height pt_first_leaf].
+      repeat split; try lia. intros p r Hpr. rewrite desc_S, tsize_S.
+      destruct (Z.eqb_spec p (o + (2 * tsize k + 1))); [lia|].
+      destruct (Z.leb_spec p (o + tsize k)); [reflexivity|lia].
+    + destruct (IH (n - tleafs k) (o + tsize k) (l + tleafs k) t ltac:(lia) HI) as (A & B & C & D & E).
+      repeat split; try lia. intros p r Hpr. rewrite desc_S, tsize_S.
+      destruct (Z.eqb_spec p (o + (2 * tsize k + 1))); [lia|].
+      destruct (Z.leb_spec p (o + tsize k)); [lia|]. apply E. exact Hpr.
+  - pose proof (ncount_lt_tsize k n ltac:(lia)).
+    destruct (IH n o l t ltac:(lia) HI) as (A & B & C & D & E).
+    repeat split; try lia. intros p r Hpr. rewrite desc_S, tsize_S.
+    destruct (Z.eqb_spec p (o + (2 * tsize k + 1))); [lia|].
+    destruct (Z.leb_spec p (o + tsize k)); [|lia]. apply E. exact Hpr.
+Qed.
+
+(* ================================================================== authentication paths *)
+Lemma t_path_acc h : forall o x acc,
+  t_path h o x acc = match t_path h o x [] with Some P => Some (P ++ acc) | None => None end.
+Proof.
+  induction h as [|h IH]; intros o x acc.
+  - cbn [t_path]. destruct (x =? o + tsize 0); reflexivity.
+  - cbn [t_path]. destruct (x =? o + tsize (S h)); [reflexivity|].
+    destruct (x <=? o + tsize h).
+    + rewrite (IH o x (_ :: acc)), (IH o x [_]). destruct (t_path h o x []); [|reflexivity].
+      rewrite <- app_assoc. reflexivity.
+    + rewrite (IH _ x (_ :: acc)), (IH _ x [_]). destruct (t_path h (o + tsize h) x []); [|reflexivity].
+      rewrite <- app_assoc. reflexivity.
+Qed.
+
+Lemma t_path_root h o acc : t_path h o (o + tsize h) acc = Some acc.
+Proof. destruct h; cbn [t_path]; rewrite Z.eqb_refl; reflexivity. Qed.
+
+Lemma t_locate_root h o l r isr par sib ni : t_locate h o l (o + tsize h) r isr par sib = Some ni ->
+  ni_parent ni = par /\ ni_sibling ni = sib.
+Proof. destruct h; cbn [t_locate]; rewrite Z.eqb_refl; intros [= <-]; split; reflexivity. Qed.
+
+(* a node below the root: its path is (node, sibling) followed by the path of its parent *)
+Lemma t_path_step h : forall o l x r isr par sib ni, o < x < o + tsize h ->
+  t_locate h o l x r isr par sib = Some ni ->
+  exists p s P', ni_parent ni = Some p /\ ni_sibling ni = Some s /\ o < p <= o + tsize h /\ x < p /\
+                 t_path h o x [] = Some ((x, s) :: P') /\ t_path h o p [] = Some P'.
+Proof.
+  induction h as [|h IH]; intros o l x r isr par sib ni Hx E.
+  - change (tsize 0) with 1 in Hx. lia.
+  - cbn [t_locate] in E. pose proof (tsize_pos h) as Hp.
+    destruct (Z.eqb_spec x (o + tsize (S h))) as [e|Hne]; [lia|].
+    cbn [t_path]. destruct (Z.eqb_spec x (o + tsize (S h))); [lia|].
+    rewrite tsize_S in *.
+    destruct (Z.leb_spec x (o + tsize h)) as [Hle|Hgt].
+    + destruct (Z.eq_dec x (o + tsize h)) as [->|Hlt].
+      * destruct (t_locate_root _ _ _ _ _ _ _ _ E) as [-> ->].
+        exists (o + (2 * tsize h + 1)), (o + tsize h + tsize h), [].
+        rewrite t_path_root. rewrite Z.eqb_refl. repeat split; try reflexivity; lia.
+      * destruct (IH o l x 0 false _ _ ni ltac:(lia) E) as (p & s & P' & Ep & Es & Hpr & Hxp & T1 & T2).
+        exists p, s, (P' ++ [(o + tsize h, o + tsize h + tsize h)]).
+        split; [exact Ep|]. split; [exact Es|]. split; [lia|]. split; [exact Hxp|].
+        rewrite t_path_acc, T1. split; [reflexivity|].
+        destruct (Z.eqb_spec p (o + (2 * tsize h + 1))); [lia|].
+        destruct (Z.leb_spec p (o + tsize h)); [|lia]. rewrite t_path_acc, T2. reflexivity.
+    + destruct (Z.eq_dec x (o + tsize h + tsize h)) as [->|Hlt].
+      * destruct (t_locate_root _ _ _ _ _ _ _ _ E) as [-> ->].
+        exists (o + (2 * tsize h + 1)), (o + tsize h), [].
+        rewrite t_path_root. rewrite Z.eqb_refl. repeat split; try reflexivity; lia.
+      * destruct (IH (o + tsize h) (l + tleafs h) x (r + 1) true _ _ ni ltac:(lia) E)
+          as (p & s & P' & Ep & Es & Hpr & Hxp & T1 & T2).
+        exists p, s, (P' ++ [(o + tsize h + tsize h, o + tsize h)]).
+        split; [exact Ep|]. split; [exact Es|]. split; [lia|]. split; [exact Hxp|].
+        rewrite t_path_acc, T1. split; [reflexivity|].
+        destruct (Z.eqb_spec p (o + (2 * tsize h + 1))); [lia|].
+        destruct (Z.leb_spec p (o + tsize h)); [lia|]. rewrite t_path_acc, T2. reflexivity.
+Qed.
+
+Definition lift_sib (s : Z) (r : option (option (list Z))) : option (option (list Z)) :=
+  match r with None => None | Some None => Some None | Some (Some l) => Some (Some (s :: l)) end.
+
+Lemma auth_path_loop_unfold f x tg nc :
+  auth_path_loop (S f) x tg nc =
+  if (x <=? nc) && negb (x =? tg) then
+    match mm_right_lineage_length_and_own_height x with
+    | None => None
+    | Some (rac, height) =>
+        if negb (rac =? 0) then
+          if left_sibling_ok x height then
+            if add_ok 64 x 1 then lift_sib (left_sibling x height) (auth_path_loop f (wadd 64 x 1) tg nc) else None
+          else None
+        else
+          if right_sibling_ok x height then
+            if add_ok 32 height 1 then
+              if shift_ok 64 (wadd 32 height 1) then
+                if add_ok 64 x (wshl 64 1 (wadd 32 height 1)) then
+                  lift_sib (right_sibling x height) (auth_path_loop f (wadd 64 x (wshl 64 1 (wadd 32 height 1))) tg nc)
+                else None
+              else None
+            else None
+          else None
+    end
+  else if x =? tg then Some (Some []) else Some None.
+Proof. reflexivity. Qed.
+
+Lemma climb_cons x s P R tg : climb ((x, s) :: P) R tg =
+  if x =? tg then Some [] else match climb P R tg with Some l => Some (s :: l) | None => None end.
+Proof. reflexivity. Qed.
+
+Section AuthInTree.
+  Variables (h : nat) (o l nc tg : Z).
+  Let R := o + tsize h.
+  Hypothesis Ho : 0 <= o.
+  Hypothesis Hfit : R + tsize h + 1 < 2 ^ 64.
+  Hypothesis Hnc : R <= nc < R + tsize h + 1.
+  Hypothesis Htg : 1 <= tg <= nc.
+  Hypothesis G : forall p a b c, o < p <= R -> desc h o l p 0 = Some (a, b, c) ->
+                 mm_right_lineage_length_and_own_height p = Some (a, b).
+
+  Lemma auth_loop_tree : forall (len : nat) P x fuel, length P = len -> o < x <= R ->
+    t_path h o x [] = Some P -> (len + 2 <= fuel)%nat ->
+    auth_path_loop fuel x tg nc = Some (climb P R tg).
+  Proof.
+    pose proof (tsize_pos h) as Hp.
+    assert (Hh63 : (S h <= 63)%nat) by (apply tsize_lt64_inv; rewrite tsize_S; unfold R in *; lia).
+    assert (P2 : 2 ^ (Z.of_nat h + 1) = tsize h + 1).
+    { replace (Z.of_nat h + 1) with (Z.of_nat (S h)) by lia. rewrite <- tleafs_pow, tleafs_S, tsize_tleafs. lia. }
+    induction len as [|len IH]; intros P x fuel HL Hx T Hf.
+    - (* x is the root of the tree *)
+      destruct P; [|discriminate]. clear HL.
+      assert (x = R) as ->.
+      { destruct (Z.eq_dec x R) as [|Hne]; [assumption|exfalso].
+        destruct (t_locate_total h o l x 0 false None None ltac:(unfold R in *; lia)) as (ni & E).
+        destruct (t_path_step h o l x 0 false None None ni ltac:(unfold R in *; lia) E) as (p & s & P' & _ & _ & _ & _ & T1 & _).
+        rewrite T in T1. discriminate. }
+      destruct fuel as [|[|f]]; [lia|lia|]. rewrite auth_path_loop_unfold. cbn [climb].
+      destruct (Z.leb_spec R nc); [|lia]. cbn [andb].
+      destruct (Z.eqb_spec R tg) as [e|Hne]; [reflexivity|]. cbn [negb].
+      assert (D : desc h o l R 0 = Some (0, Z.of_nat h, l)).
+      { unfold R. destruct h; cbn [desc]; rewrite Z.eqb_refl; reflexivity. }
+      rewrite (G R _ _ _ ltac:(unfold R in *; lia) D). cbn [Z.eqb negb].
+      destruct (right_sibling_val R (Z.of_nat h) ltac:(lia) ltac:(unfold R; lia) ltac:(rewrite P2; lia)) as [-> ->].
+      rewrite wadd32_small by (pow_lits; lia). rewrite shift_ok_64, wshl64_1 by lia. rewrite P2.
+      unfold add_ok. destruct (Z.ltb_spec (Z.of_nat h + 1) (2 ^ 32)); [|pow_lits; lia].
+      destruct (Z.ltb_spec (R + (tsize h + 1)) (2 ^ 64)); [|lia].
+      rewrite wadd64_small by (unfold R; lia).
+      rewrite auth_path_loop_unfold.
+      destruct (Z.leb_spec (R + (tsize h + 1)) nc); [lia|]. cbn [andb].
+      destruct (Z.eqb_spec (R + (tsize h + 1)) tg); [lia|]. reflexivity.
+    - (* x is below the root *)
+      destruct (t_locate_total h o l x 0 false None None ltac:(unfold R in *; lia)) as (ni & E).
+      assert (Hne : x <> R).
+      { intros ->. unfold R in T. rewrite t_path_root in T. injection T as <-. discriminate. }
+      destruct (t_path_step h o l x 0 false None None ni ltac:(unfold R in *; lia) E)
+        as (p & s & P' & Ep & Es & Hpr & Hxp & T1 & T2).
+      rewrite T in T1. injection T1 as ->. cbn [length] in HL.
+      destruct fuel as [|f]; [lia|]. rewrite auth_path_loop_unfold, climb_cons.
+      destruct (Z.leb_spec x nc); [|unfold R in *; lia]. cbn [andb].
+      destruct (Z.eqb_spec x tg) as [e|Hntg]; [reflexivity|]. cbn [negb].
+      rewrite (G x _ _ _ Hx (t_locate_desc _ _ _ _ _ _ _ _ _ E)).
+      assert (C : ni_consistent x ni o R).
+      { eapply t_locate_consistent; [exact E|lia| | | |unfold R; lia| |lia].
+        - intros; discriminate.
+        - intros _. split; [reflexivity|left; split; reflexivity].
+        - intros q Hq; discriminate.
+        - intros q Hq; discriminate. }
+      destruct C as (Hh0 & Hr0 & Ct & Cf & CB & _ & _ & CA & CAx).
+      pose proof (pow2_pos (ni_height ni + 1) ltac:(lia)) as Hpp.
+      pose proof (CA s Es) as HsA. pose proof (CB p Ep) as HpB.
+      specialize (IH P' p f ltac:(lia) ltac:(unfold R; lia) T2 ltac:(lia)).
+      destruct (ni_is_right ni) eqn:IR.
+      + destruct (Ct eq_refl) as (Hrpos & Ep' & Es'). rewrite Ep in Ep'. rewrite Es in Es'.
+        injection Ep' as ->. injection Es' as ->.
+        destruct (Z.eqb_spec (ni_rll ni) 0); [lia|]. cbn [negb].
+        pose proof (pow2_lt64_inv (ni_height ni + 1) ltac:(lia) ltac:(unfold R in *; lia)) as H64.
+        destruct (left_sibling_val x (ni_height ni) ltac:(lia) ltac:(unfold R in *; lia)) as [-> ->].
+        unfold add_ok. destruct (Z.ltb_spec (x + 1) (2 ^ 64)); [|unfold R in *; lia].
+        rewrite wadd64_small by lia. rewrite IH. unfold lift_sib.
+        replace (x - 2 ^ (ni_height ni + 1) + 1) with (x - (2 ^ (ni_height ni + 1) - 1)) by lia.
+        destruct (climb P' R tg); reflexivity.
+      + destruct (Cf eq_refl) as (Hrz & [[Ep' _]|[Ep' Es']]); [congruence|]. rewrite Ep in Ep'. rewrite Es in Es'.
+        injection Ep' as ->. injection Es' as ->.
+        rewrite Hrz. cbn [Z.eqb negb].
+        pose proof (pow2_lt64_inv (ni_height ni + 1) ltac:(lia) ltac:(unfold R in *; lia)) as H64.
+        destruct (right_sibling_val x (ni_height ni) ltac:(lia) ltac:(lia) ltac:(unfold R in *; lia)) as [-> ->].
+        rewrite wadd32_small by (pow_lits; lia). rewrite shift_ok_64, wshl64_1 by lia.
+        unfold add_ok. destruct (Z.ltb_spec (ni_height ni + 1) (2 ^ 32)); [|pow_lits; lia].
+        destruct (Z.ltb_spec (x + 2 ^ (ni_height ni + 1)) (2 ^ 64)); [|unfold R in *; lia].
+        rewrite wadd64_small by lia. rewrite IH. unfold lift_sib.
+        destruct (climb P' R tg); reflexivity.
+  Qed.
+End AuthInTree.
+
+Lemma t_path_length h : forall o x acc P, t_path h o x acc = Some P -> (length P <= h + length acc)%nat.
+Proof.
+  induction h as [|h IH]; intros o x acc P E.
+  - cbn [t_path] in E. destruct (x =? o + tsize 0); [|discriminate]. injection E as <-. lia.
+  - cbn [t_path] in E. destruct (x =? o + tsize (S h)); [injection E as <-; lia|].
+    destruct (x <=? o + tsize h); apply IH in E; cbn [length] in E; lia.
+Qed.
+
+Lemma t_path_total h o (l : Z) x : o < x <= o + tsize h -> exists P, t_path h o x [] = Some P.
+Proof.
+  intros Hx. destruct (Z.eq_dec x (o + tsize h)) as [->|Hne]; [rewrite t_path_root; eauto|].
+  destruct (t_locate_total h o l x 0 false None None Hx) as (ni & E).
+  destruct (t_path_step h o l x 0 false None None ni ltac:(lia) E) as (p & s & P' & _ & _ & _ & _ & T & _). eauto.
+Qed.
+
+Theorem auth_path_correct n start tg : 0 <= n < 2 ^ 63 -> 1 <= start <= ncount n -> 1 <= tg <= ncount n ->
+  mm_get_authentication_path_node_indices start tg (ncount n) = spec_auth_path n start tg.
+Proof.
+  intros Hn Hs Ht.
+  assert (H64 : 0 <= n < 2 ^ 64) by (pow_lits; lia). pose proof (ncount_lt64 n Hn) as Hc.
+  destruct (node_located n start H64 Hc Hs) as (pk & t & ni & E & _ & _ & _ & HI & Hhas).
+  unfold spec_auth_path. rewrite E.
+  unfold forest in HI. replace 64%nat with (1 + 63)%nat in HI by lia.
+  rewrite forest_from_skip in HI by (rewrite tleafs_63; lia).
+  destruct (forest_from_In 63 n 0 0 t ltac:(rewrite tleafs_63; lia) HI) as (A & B & C & D & Ed).
+  rewrite tsize_63 in D. rewrite !Z.add_0_l in *.
+  unfold pt_has_node in Hhas. apply andb_prop in Hhas. destruct Hhas as [Hh1 Hh2].
+  apply Z.ltb_lt in Hh1. apply Z.leb_le in Hh2.
+  destruct (t_path_total (pt_height t) (pt_offset t) (pt_first_leaf t) start ltac:(unfold pt_root in *; lia)) as (P & T).
+  rewrite T. unfold mm_get_authentication_path_node_indices.
+  pose proof (t_path_length _ _ _ _ _ T) as HL. cbn [length] in HL.
+  assert (Hh : (pt_height t <= 63)%nat).
+  { apply tsize_lt64_inv. pose proof (tsize_pos (pt_height t)). unfold pt_root in *. lia. }
+  unfold pt_root in *.
+  apply (auth_loop_tree (pt_height t) (pt_offset t) (pt_first_leaf t) (ncount n) tg A ltac:(lia) ltac:(lia) Ht)
+    with (len := length P); [|reflexivity|lia|exact T|lia].
+  intros p a b c Hp Dp.
+  destruct (rll_and_height_desc p ltac:(lia)) as (a' & b' & c' & D' & L).
+  replace 64%nat with (1 + 63)%nat in D' by lia. rewrite desc_left_spine in D' by (rewrite tsize_63; lia).
+  rewrite (Ed p 0 ltac:(unfold pt_root; lia)) in D'. rewrite Dp in D'. injection D' as <- <- <-. exact L.
+Qed.
